@@ -86,10 +86,23 @@ type quicRun struct {
 	cancelledAt  int
 	closeErr     error
 	clientEvents int
+	// wrongLevelErrs: HandleData calls of the wrong-level injection that returned an error
+	wrongLevelErrs int
+	cliState       tls.ConnectionState
 }
 
 // driveQUIC pumps a UQUICConn client against a QUICServer with a PRNG-chosen order.
-func driveQUIC(rg *rand.Rand, ccfg *tls.Config, spec *tls.ClientHelloSpec, scfg *tls.Config, cancelAt int, fragment bool, beforeStart func()) *quicRun {
+// quicOpts: further knobs of one driven QUIC handshake.
+type quicOpts struct {
+	beforeStart func() // runs after ApplyPreset / SetTransportParameters, before Start
+	// wrongLevelAt: at this pump step CRYPTO data is handed to the client at every
+	// encryption level in turn (at least two of them are not the level it expects)
+	wrongLevelAt int
+	serverPlan   *tls.VerifPlan // hooks for the QUIC server's connection
+}
+
+func driveQUIC(rg *rand.Rand, ccfg *tls.Config, spec *tls.ClientHelloSpec, scfg *tls.Config, cancelAt int, fragment bool, qo quicOpts) *quicRun {
+	beforeStart := qo.beforeStart
 	run := &quicRun{cli: newSide("client"), srv: newSide("server"), cancelledAt: -1}
 	ctx, cancel := context.WithCancel(context.Background())
 	defer cancel()
@@ -113,6 +126,9 @@ func driveQUIC(rg *rand.Rand, ccfg *tls.Config, spec *tls.ClientHelloSpec, scfg 
 		beforeStart()
 	}
 	s := tls.QUICServer(&tls.QUICConfig{TLSConfig: scfg})
+	if qo.serverPlan != nil {
+		tls.VerifAttachQUIC(s, qo.serverPlan)
+	}
 	s.SetTransportParameters([]byte{0x01, 0x01, 0x05})
 	run.cli.next, run.cli.handle = q.NextEvent, q.HandleData
 	run.srv.next, run.srv.handle = s.NextEvent, s.HandleData
@@ -167,6 +183,24 @@ func driveQUIC(rg *rand.Rand, ccfg *tls.Config, spec *tls.ClientHelloSpec, scfg 
 		if cancelAt >= 0 && step == cancelAt {
 			cancel()
 			run.cancelledAt = step
+		}
+		if qo.wrongLevelAt > 0 && step == qo.wrongLevelAt {
+			for _, lvl := range []tls.QUICEncryptionLevel{tls.QUICEncryptionLevelHandshake, tls.QUICEncryptionLevelApplication, tls.QUICEncryptionLevelInitial} {
+				lvl := lvl
+				herr, ok := bounded(func() error { return q.HandleData(lvl, []byte{2, 0, 0, 1, 0}) })
+				if !ok {
+					run.hang = fmt.Sprintf("UQUICConn.HandleData at level %v (step %d of the handshake)", lvl, step)
+					cancel()
+					return run
+				}
+				if herr != nil {
+					run.wrongLevelErrs++
+				}
+			}
+			run.err = fmt.Errorf("CRYPTO data injected at the wrong levels (%d calls returned an error)", run.wrongLevelErrs)
+			run.orderSig = order.String()
+			closeAll()
+			return run
 		}
 		// PRNG-chosen side (bias towards the side that has work: swap on idle)
 		if rg.Intn(4) == 0 {
@@ -244,6 +278,7 @@ func driveQUIC(rg *rand.Rand, ccfg *tls.Config, spec *tls.ClientHelloSpec, scfg 
 		}
 	}
 	run.completed = srvDone && cliDone && run.err == nil
+	run.cliState = q.ConnectionState()
 	run.orderSig = order.String()
 	run.clientEvents = len(run.cli.events)
 	closeAll()
@@ -252,7 +287,7 @@ func driveQUIC(rg *rand.Rand, ccfg *tls.Config, spec *tls.ClientHelloSpec, scfg 
 
 // C23 — QUIC clients complete the handshake through the event API and never hang.
 func TestC23(t *testing.T) {
-	r := mon.New("C23", "generated TLS 1.3-only QUIC ClientHello specs (quic_transport_parameters incl. GREASE parameters) x QUIC server configs (incl. HelloRetryRequest) x PRNG-chosen event-pump orders and CRYPTO fragmentation x failure injections (unbuildable config: no ServerName, empty PSK without OmitEmptyPsk, two padding extensions; a Config whose MinVersion Start refuses; HandleData and Close in both orders after a failed Start; server alert; context cancelled at a random step, already cancelled / past its deadline before Start): trace specification over the NextEvent streams of both sides; every Start/HandleData/Close runs in its own goroutine and must return within 10 s. Race detector on. distinct = event-order signatures")
+	r := mon.New("C23", "generated TLS 1.3-only QUIC ClientHello specs (quic_transport_parameters incl. GREASE parameters) x QUIC server configs (incl. HelloRetryRequest) x PRNG-chosen event-pump orders and CRYPTO fragmentation x failure injections (unbuildable config: no ServerName, empty PSK without OmitEmptyPsk, two padding extensions; a Config whose MinVersion Start refuses; HandleData and Close in both orders after a failed Start; server alert; CRYPTO data handed over at the wrong encryption levels at a random step of the handshake; context cancelled at a random step, already cancelled / past its deadline before Start): trace specification over the NextEvent streams of both sides; every Start/HandleData/Close runs in its own goroutine and must return within 10 s. Race detector on. distinct = event-order signatures")
 	defer r.Finish(t)
 	n := mon.Pick(400, 30000)
 	orders := map[string]bool{}
@@ -275,7 +310,7 @@ func TestC23(t *testing.T) {
 				listed = v.Curves
 			}
 		}
-		scenario := []string{"ok", "ok", "ok", "hrr", "no-servername", "empty-psk", "two-paddings", "server-alert", "cancel", "cancel", "minversion-below-1.3"}[i%11]
+		scenario := []string{"ok", "ok", "ok", "hrr", "no-servername", "empty-psk", "two-paddings", "server-alert", "cancel", "cancel", "minversion-below-1.3", "wrong-level"}[i%12]
 		ccfg := &tls.Config{ServerName: "example.test", RootCAs: peer.Fix().CA.Pool, Time: peer.FixedTime, MinVersion: tls.VersionTLS13, NextProtos: protos}
 		scfg := peer.ServerConfig()
 		scfg.MinVersion = tls.VersionTLS13
@@ -327,7 +362,11 @@ func TestC23(t *testing.T) {
 			mv := ccfg.MinVersion
 			beforeStart = func() { ccfg.MinVersion = mv }
 		}
-		run := driveQUIC(rg, ccfg, spec, scfg, cancelAt, rg.Intn(2) == 0, beforeStart)
+		qo := quicOpts{beforeStart: beforeStart}
+		if scenario == "wrong-level" {
+			qo.wrongLevelAt = 1 + rg.Intn(14)
+		}
+		run := driveQUIC(rg, ccfg, spec, scfg, cancelAt, rg.Intn(2) == 0, qo)
 		sig := map[string]string{"scenario": scenario}
 		rep := map[string]any{"case": i, "scenario": scenario, "start_err": fmt.Sprint(run.startErr), "err": fmt.Sprint(run.err), "client_events": run.cli.events, "server_events": run.srv.events, "cancelled_at": run.cancelledAt}
 		if run.hang != "" {
@@ -400,6 +439,12 @@ func TestC23(t *testing.T) {
 				viol("start_accepts_unbuildable_hello", "Start returned nil although the ClientHello cannot be built")
 			} else {
 				r.Count("unbuildable_reported", 1)
+			}
+		case "wrong-level":
+			if run.wrongLevelErrs >= 2 {
+				r.Count("wrong_level_deliveries_refused", 1)
+			} else if run.err != nil && strings.HasPrefix(run.err.Error(), "CRYPTO data injected") {
+				viol("wrong_level_data_accepted", fmt.Sprintf("CRYPTO data handed over at three different levels, only %d call(s) returned an error", run.wrongLevelErrs))
 			}
 		case "server-alert":
 			if run.completed || run.err == nil {
